@@ -9,6 +9,10 @@
            restricted to these owners);
  EDITAPI   the DelaunayTriangulation flip that adds a vertex invalidates the insertion caches
            before delegating (shared with C09).
+ HASHCANON the legality guards identify cells and facets by a hash of their vertex keys; the index
+           builder and every lookup must hash the *same canonical sequence*: each slice handed to
+           `stable_hash_u64_slice` in the flip code is ordered as u64 key values (it comes from
+           `sorted_vertex_key_values`, or a sort of a `[u64]` buffer is part of how it is filled).
 Not decided: manifold preservation, cell-count arithmetic, FlipInfo accuracy, invertibility."""
 import flow
 import gate
@@ -39,9 +43,11 @@ def run(ctx):
     ctx.rule('GUARDS', 'legality guards and arity checks dominate the first storage mutation of the flip kernel')
     ctx.rule('CONSTRUCT', 'flip contexts are constructed only by the validated builders')
     ctx.rule('TXN', 'flip entry points and kernel layers are clean on failure')
+    ctx.rule('HASHCANON', 'every simplex hash in the flip code is computed over the u64-sorted key sequence')
     for cfg in ctx.cfgs:
         prog = ctx.prog(cfg)
         mod = ctx.mod(cfg)
+        _hashcanon(ctx, cfg, prog, mod)
         lv = gate.Leaves(prog)
         kb = ctx.anchor(cfg, KERNEL)
         if kb is None:
@@ -198,3 +204,50 @@ def _inner_variant(body, e):
             if idx != 'term' and node.rv.k == 'agg' and node.rv.raw.get('ak') == 'adt':
                 return node.rv.raw.get('variant')
     return None
+
+
+HASHFN = 'core::util::hashing::stable_hash_u64_slice'
+CANON = F + 'sorted_vertex_key_values'
+SORTS = ('sort', 'sort_unstable')
+
+
+def _hashcanon(ctx, cfg, prog, mod):
+    import valueflow
+    n = 0
+    for q, b in sorted(prog.bodies.items()):
+        if not q.startswith(F):
+            continue
+        al = None
+        for bb, t in b.calls():
+            name = t.resolved or t.callee or ''
+            if not name.endswith('::stable_hash_u64_slice') or not t.args or t.args[0].place is None:
+                continue
+            al = al or mod.aliases(q)
+            n += 1
+            tt = al.operand_target(t.args[0])
+            roots = [t.args[0].place.local] + ([tt[0]] if tt is not None else [])
+            canon, u64sort, keysort = False, False, []
+            for rl in roots:
+                leaves, _ = valueflow.content_sources(b, al, rl)
+                for l in leaves:
+                    if l[0] != 'call':
+                        continue
+                    cn = l[1].resolved or l[1].callee or ''
+                    if cn == CANON:
+                        canon = True
+                    if cn.rsplit('::', 1)[-1] in SORTS or cn.rsplit('::', 1)[-1].startswith('sort_'):
+                        st = (l[1].func.const.get('selfty') or '') if l[1].func is not None and l[1].func.kind == 'k' else ''
+                        arg0 = b.locals[l[1].args[0].place.local] if l[1].args and l[1].args[0].place is not None else ''
+                        if 'u64' in (st + ' ' + arg0) and 'VertexKey' not in (st + ' ' + arg0):
+                            u64sort = True
+                        elif 'VertexKey' in (st + ' ' + arg0) and cn.rsplit('::', 1)[-1] in SORTS:
+                            keysort.append(cn.rsplit('::', 1)[-1])
+            ok = canon or u64sort
+            ctx.ob('HASHCANON', '%s|%s' % (b.root or q, 'hash%d' % sum(1 for o in ctx.obligations if o['rule'] == 'HASHCANON' and o['cfg'] == cfg and o['key'].startswith('HASHCANON|%s|' % (b.root or q)))),
+                   cfg, ok,
+                   'hashed slice %s' % ('comes from sorted_vertex_key_values' if canon else 'is filled from a u64-sorted buffer' if u64sort else
+                                        'is NOT in the canonical u64 order (no sorted_vertex_key_values / u64 sort in its content slice%s): '
+                                        'the index builder and this site can disagree on the hash of the same simplex once slot-map '
+                                        'versions differ (recycled vertex slot)' % ('; ordered by VertexKey::cmp instead' if keysort else '')),
+                   site='%s:%d' % (b.file, t.line))
+    ctx.floor('simplex hash computations in the flip code', 5, n, cfg)
